@@ -279,20 +279,12 @@ class GaussianMerge(Compiler):
             # Need special logic if there are displacement gates
             if displacement_mapping:
                 for successor_op in self.DAG.successors(gaussian_op):
-                    placed_edge = False
-                    successor_op_qumodes = get_qumodes_operated_upon(successor_op)
-                    for qumode in successor_op_qumodes:
-                        # If displacement gate operates on the same qumodes as the non-gaussian operation then don't
-                        # add an edge. If register operated upon by successor operation has a displacement gate, add edge.
-                        if (
-                            qumode in displacement_mapping
-                            and qumode not in self.non_gaussian_qumodes_dependecy(successor_op)
-                        ):
-                            self.new_DAG.add_edge(displacement_mapping[qumode], successor_op)
-                            placed_edge = True
-
-                    if not placed_edge:
-                        self.new_DAG.add_edge(gaussian_transform[0], successor_op)
+                    # The successor followed a merged operation: it has to run after everything the
+                    # merged block is replaced by, i.e. the Gaussian transform and the displacement
+                    # gates (it may depend on their modes through a measured parameter as well).
+                    self.new_DAG.add_edge(gaussian_transform[0], successor_op)
+                    for displacement_gate in displacement_mapping.values():
+                        self.new_DAG.add_edge(displacement_gate, successor_op)
                     successor_operations_added.append(successor_op)
             else:
                 self.new_DAG.add_edges_from(
